@@ -263,6 +263,27 @@ func c06Programs(tier string) []*Spec {
 			}
 		}
 	}
+	// there and back: one bar is given another priority and, at once, its old one again (both immediate, or through
+	// UpdateBarPriority); the frame that follows must show the original order whichever goroutine is ahead
+	for i := 0; i < 3; i++ {
+		for vi, v := range []int64{10, -1} {
+			for _, k := range []string{"setprio", "prio"} {
+				sp := &Spec{Name: fmt.Sprintf("c06-there-and-back-%s-%d-%d", k, i, vi), Refresh: "manual", Q: -1}
+				for b := 0; b < 3; b++ {
+					sp.Bars = append(sp.Bars, BarSpec{Total: 1})
+					sp.Main = append(sp.Main, Op{K: "add", B: b})
+				}
+				sp.Main = append(sp.Main, Op{K: "refresh"}, Op{K: "refresh"},
+					Op{K: k, B: i, N: v}, Op{K: k, B: i, N: int64(i)}, Op{K: "refresh"}, Op{K: "refresh"},
+					Op{K: k, B: i, N: v}, Op{K: k, B: i, N: int64(i)}, Op{K: k, B: i, N: v}, Op{K: "refresh"}, Op{K: "refresh"})
+				for b := 0; b < 3; b++ {
+					sp.Main = append(sp.Main, Op{K: "incr", B: b, N: 1})
+				}
+				sp.Main = append(sp.Main, Op{K: "refresh"}, Op{K: "refresh"})
+				out = append(out, sp)
+			}
+		}
+	}
 	// five bars, one of them added with an explicit priority between two changes
 	{
 		sp := &Spec{Name: "c06-double-change-add", Refresh: "manual", Q: -1}
